@@ -48,6 +48,11 @@ type Client struct {
 	// EncFrom is the offset in the received byte stream at which the encrypted session began.
 	EncFrom int
 
+	// MutateM5, when set, alters the encrypted data of pair-setup M5 before it is sent (a
+	// controller whose key exchange message is damaged or wrongly signed). It gets the SRP
+	// session key so that it can also seal another, correctly encrypted payload.
+	MutateM5 func(enc []byte, K []byte) []byte
+
 	// Verify state
 	vPriv, vPub, aPub [32]byte
 	Shared            [32]byte
@@ -309,6 +314,9 @@ func (c *Client) PairSetup(pin, id string, kp Keypair) (*SetupResult, error) {
 		return nil, proto("pair-setup M4: accessory proof does not verify")
 	}
 	enc := SetupM5Payload(srp.K, id, kp)
+	if c.MutateM5 != nil {
+		enc = c.MutateM5(enc, srp.K)
+	}
 	t, m, err = c.PostTLV("/pair-setup", []TLV{{TagState, []byte{5}}, {TagEncrypted, enc}})
 	if err != nil {
 		return nil, err
